@@ -197,27 +197,71 @@ pub open spec fn ident_token_ok(token: Token, table: LookupTable, decls: Seq<Ran
 // ---------- the top-level closure of `semantic_tokens`: every global declaration is walked over its own tokens
 /// what the three collectors emit for a declaration over a token slice, and the position they leave behind (their per-token closures are under contract above; the
 /// walks themselves are `FnMut` closures in iterator chains)
-pub uninterp spec fn proc_out(pd: ProcedureDeclaration, table: GlobalTable, text: Seq<char>, ts: Seq<Token>, prev: Position) -> (Seq<SemanticToken>, Position);
-pub uninterp spec fn type_out(td: TypeDeclaration, text: Seq<char>, ts: Seq<Token>, prev: Position) -> (Seq<SemanticToken>, Position);
-pub uninterp spec fn error_out(info: AstInfo, text: Seq<char>, ts: Seq<Token>, prev: Position) -> (Seq<SemanticToken>, Position);
-//~assume collect_proc_dec / collect_type_dec / collect_error are functions of their arguments (named proc_out / type_out / error_out); what they do per token is proved above, their iteration is not decided
-//@extract lsp4spl/src/features/semantic_tokens.rs :: fn collect_proc_dec
+/// the walk of a collector over a token slice in order (its per-token step is the verified lifted closure; the iteration is `iter().filter_map(FnMut)`, outside Verus)
+pub uninterp spec fn proc_walk(ts: Seq<Token>, name_range: Option<Range<usize>>, local_declarations: Seq<Range<usize>>, lookup: LookupTable, text: Seq<char>, prev: Position) -> (Seq<SemanticToken>, Position);
+pub uninterp spec fn type_walk(ts: Seq<Token>, name_range: Option<Range<usize>>, text: Seq<char>, prev: Position) -> (Seq<SemanticToken>, Position);
+pub uninterp spec fn error_walk(ts: Seq<Token>, text: Seq<char>, prev: Position) -> (Seq<SemanticToken>, Position);
+//~assume (R13) the three walks apply the verified per-token closure to every token of the slice in order, threading `previous_token_pos`, and collect the emitted tokens; they are named by uninterpreted functions of their inputs
+#[verifier::external_body]
+pub fn proc_tokens_walk<'a>(ts: &[Token], name_range: &Option<Range<usize>>, local_declarations: &Vec<Range<usize>>, lookup_table: &LookupTable<'a>, text: &str, previous_token_pos: &mut Position) -> (r: Vec<SemanticToken>)
+    ensures (r@, *final(previous_token_pos)) == proc_walk(ts@, *name_range, local_declarations@, *lookup_table, text@, *old(previous_token_pos)),
+{ unimplemented!() }
+#[verifier::external_body]
+pub fn type_tokens_walk(ts: &[Token], name_range: &Option<Range<usize>>, text: &str, previous_token_pos: &mut Position) -> (r: Vec<SemanticToken>)
+    ensures (r@, *final(previous_token_pos)) == type_walk(ts@, *name_range, text@, *old(previous_token_pos)),
+{ unimplemented!() }
+#[verifier::external_body]
+pub fn error_tokens_walk(ts: &[Token], text: &str, previous_token_pos: &mut Position) -> (r: Vec<SemanticToken>)
+    ensures (r@, *final(previous_token_pos)) == error_walk(ts@, text@, *old(previous_token_pos)),
+{ unimplemented!() }
+/// the token that declares a declaration's name: the name's own token, relative to the declaration's first token (offset 0)
+pub open spec fn declared_name(name: Option<Identifier>, ts: Seq<Token>) -> Option<Range<usize>> {
+    match name { Some(n) => name_token(n, 0, ts), None => None }
+}
+pub open spec fn own_scope<'a>(pd: ProcedureDeclaration, table: &'a GlobalTable) -> LookupTable<'a> {
+    LookupTable { local_table: (match pd.name {
+        Some(name) => if gmap(*table).contains_key(name.value@) { match gmap(*table)[name.value@] { GlobalEntry::Procedure(p) => Some(&p.local_table), GlobalEntry::Type(_) => None } } else { None },
+        None => None }), global_table: Some(table) }
+}
+/// a procedure is walked over its own tokens, with its own name token as the declaring token, the name tokens of its parameters and variables as local
+/// declarations, and its own local scope before the global one
+pub open spec fn proc_out(pd: ProcedureDeclaration, table: GlobalTable, text: Seq<char>, ts: Seq<Token>, prev: Position) -> (Seq<SemanticToken>, Position) {
+    proc_walk(ts.subrange(pd.info.range.start as int, pd.info.range.end as int), declared_name(pd.name, ts),
+        param_decl_ranges(pd.parameters@, ts, pd.parameters@.len()) + var_decl_ranges(pd.variable_declarations@, ts, pd.variable_declarations@.len()), own_scope(pd, &table), text, prev)
+}
+pub open spec fn type_out(td: TypeDeclaration, text: Seq<char>, ts: Seq<Token>, prev: Position) -> (Seq<SemanticToken>, Position) {
+    type_walk(ts.subrange(td.info.range.start as int, td.info.range.end as int), declared_name(td.name, ts), text, prev)
+}
+pub open spec fn error_out(info: AstInfo, text: Seq<char>, ts: Seq<Token>, prev: Position) -> (Seq<SemanticToken>, Position) {
+    error_walk(ts.subrange(info.range.start as int, info.range.end as int), text, prev)
+}
+//~assume `get_local_table` satisfies its contract (proved in unit `cursor`, used here by contract)
+//@extract lsp4spl/src/features.rs :: fn get_local_table
 //@ ret r
 //@ sig
-    ensures (r@, *final(previous_token_pos)) == proc_out(*pd, *global_table, text@, tokens@, *old(previous_token_pos)),
-//@ assume_body fn collect_proc_dec
+    ensures match own_scope(*pd, global_table).local_table { Some(t) => r is Some && *r->0 == *t, None => r is None },
+//@ assume_body fn get_local_table
+//@end
+//@extract lsp4spl/src/features/semantic_tokens.rs :: fn collect_proc_dec
+//@ rewrite proc_tokens_walk super_get_local_table and_then_inline
+//@ ret r
+//@ sig
+    requires pd.info.range.start <= pd.info.range.end <= tokens@.len(), decl_offsets_fit(*pd), pd.name is Some ==> pd.name->0.info.range.end <= usize::MAX,
+    ensures (r@, *final(previous_token_pos)) == proc_out(*pd, *global_table, text@, tokens@, *old(previous_token_pos)), //# collect_proc_dec::own_tokens_own_name_own_declarations_own_scope
 //@end
 //@extract lsp4spl/src/features/semantic_tokens.rs :: fn collect_type_dec
+//@ rewrite type_tokens_walk and_then_inline
 //@ ret r
 //@ sig
-    ensures (r@, *final(previous_token_pos)) == type_out(*td, text@, tokens@, *old(previous_token_pos)),
-//@ assume_body fn collect_type_dec
+    requires td.info.range.start <= td.info.range.end <= tokens@.len(),
+    ensures (r@, *final(previous_token_pos)) == type_out(*td, text@, tokens@, *old(previous_token_pos)), //# collect_type_dec::own_tokens_and_own_name_token
 //@end
 //@extract lsp4spl/src/features/semantic_tokens.rs :: fn collect_error
+//@ rewrite error_tokens_walk
 //@ ret r
 //@ sig
-    ensures (r@, *final(previous_token_pos)) == error_out(*info, text@, tokens@, *old(previous_token_pos)),
-//@ assume_body fn collect_error
+    requires info.range.start <= info.range.end <= tokens@.len(),
+    ensures (r@, *final(previous_token_pos)) == error_out(*info, text@, tokens@, *old(previous_token_pos)), //# collect_error::own_tokens
 //@end
 //~assume &tokens[offset..] is the suffix of the slice from `offset` (RangeFrom indexing; panics iff offset > len)
 #[verifier::external_body]
@@ -234,11 +278,19 @@ pub open spec fn decl_out(gd: Reference<GlobalDeclaration>, table: GlobalTable, 
         GlobalDeclaration::Error(info) => error_out(info, text, own, prev),
     }
 }
+/// the declaration's Reference offset and token range lie inside the token vector (parser; assumed)
+pub open spec fn decl_in_tokens(gd: Reference<GlobalDeclaration>, ts: Seq<Token>) -> bool {
+    gd.offset <= ts.len() && match gd.reference {
+        GlobalDeclaration::Procedure(pd) => pd.info.range.start <= pd.info.range.end <= ts.len() - gd.offset && decl_offsets_fit(pd) && (pd.name is Some ==> pd.name->0.info.range.end <= usize::MAX),
+        GlobalDeclaration::Type(td) => td.info.range.start <= td.info.range.end <= ts.len() - gd.offset,
+        GlobalDeclaration::Error(info) => info.range.start <= info.range.end <= ts.len() - gd.offset,
+    }
+}
 //@extract lsp4spl/src/features/semantic_tokens.rs :: fn semantic_tokens :: closure |gd|
 //@ rewrite tokens_from_gd_offset captured_mut_pos
 //@ lift pub fn tokens_of_declaration(gd: &Reference<GlobalDeclaration>, global_table: GlobalTable, text: String, tokens: &Vec<Token>, previous_token_pos: &mut Position) -> (r: Vec<SemanticToken>)
 //@ sig
-    requires gd.offset <= tokens@.len(),
+    requires decl_in_tokens(*gd, tokens@),
     ensures (r@, *final(previous_token_pos)) == decl_out(*gd, global_table, text@, tokens@, *old(previous_token_pos)), //# semantic_tokens::every_declaration_over_its_own_tokens
 //@end
 // ---------- local_declaration_ranges: which tokens declare the parameters and local variables of a procedure
